@@ -23,8 +23,15 @@ func init() { runners["C20"] = runC20 }
 // The attribute cache of the engine is process-wide and cannot be reset through the public API, so the
 // histories of all cases concatenate; by C20_cache_transparent the predictions do not depend on that.
 
-// c20CacheStats is set by an optional hook file (see the report of C20): entries, currSize, maxSize.
+// Optional hooks, nil unless a file harness/c20_hooks.go sets them from /repo/verif_hooks.go:
+//
+//	c20CacheStats = twig.VerifAttrCacheStats   // len(attributeCache.m), attributeCache.currSize, attributeCache.maxSize
+//	c20CacheReset = twig.VerifAttrCacheReset   // empties attributeCache.m and sets currSize to 0 (under the lock)
+//
+// With the reset every case starts from the empty cache the model starts from; with the statistics the size
+// accounting (entries = currSize <= maxSize) is observed on the real cache after every case.
 var c20CacheStats func() (int, int, int)
+var c20CacheReset func()
 
 // ---------------------------------------------------------------- catalogue (mirrored in ocaml/c20.ml)
 
@@ -48,10 +55,10 @@ type C20Outer struct {
 	Title string
 }
 
-func (o C20Outer) Arg(n int) string      { return "arg" }
-func (o C20Outer) None()                 {}
-func (o *C20Outer) PtrTitle() string     { return o.Title }
-func (o C20Outer) Two() (string, error)  { return "two", nil }
+func (o C20Outer) Arg(n int) string     { return "arg" }
+func (o C20Outer) None()                {}
+func (o *C20Outer) PtrTitle() string    { return o.Title }
+func (o C20Outer) Two() (string, error) { return "two", nil }
 
 // a method at depth 0 and a promoted field of the same name at depth 1
 type C20OM struct{ C20Inner }
@@ -515,6 +522,9 @@ func runC20(cases string, res *Result) {
 			c20CheckMirror(c, res)
 			return
 		}
+		if c20CacheReset != nil {
+			c20CacheReset()
+		}
 		vdescs := c.list("values")
 		vals := make([]interface{}, len(vdescs))
 		for i, d := range vdescs {
@@ -545,15 +555,20 @@ func runC20(cases string, res *Result) {
 				return small
 			}
 			where := stream + ":" + s["a"].(string)
-			if exp != "nil" && dot && x != nil && (reflect.TypeOf(x).Kind() == reflect.Struct || reflect.TypeOf(x).Kind() == reflect.Ptr) {
-				nontrivial = true
-			}
 			if x != nil && dot {
 				t := reflect.TypeOf(x)
-				if t.Kind() == reflect.Ptr {
+				isPtr := t.Kind() == reflect.Ptr
+				if isPtr {
 					t = t.Elem()
 				}
 				if t.Kind() == reflect.Struct {
+					// non-trivial (DESIGN A.5): a lookup on a pointer or on a type with an embedded struct
+					if isPtr {
+						nontrivial = true
+					}
+					for i := 0; i < t.NumField() && !nontrivial; i++ {
+						nontrivial = t.Field(i).Anonymous
+					}
 					pairsSeen[t.String()+"|"+name] = true
 				}
 			}
